@@ -116,6 +116,16 @@ check("C13", "other",
       "Pipes, merge order of stdout/stderr, megabyte payloads and real exit codes of processes are not claimed.",
       E2_NOTE, E2_TECH, "E2", "DESIGN.md §3 C13")
 
+check("C08", "other",
+      "Partial: the grammar half. On the MIR of ExpectationMaker::parse/extract/make + the rule registry, with the regex engine "
+      "replaced by a capture-aware regex semantics applied to the pattern the real to_expectation_regex builds: no panic; a final "
+      "` (K Q)` group with documented kind and/or quantifier is recognised exactly, the expression is verbatim, quantifier flags are "
+      "right, failure only for regex/escaped kinds; every other line — including a final `()` — is an equal expectation for the whole "
+      "line. Lines u ++ sep ++ (K Q) with symbolic u (<= 2/3 chars) over 13 kind texts × 6 quantifier texts × 3 separators, and all "
+      "free lines <= 5/6 chars over a 7-symbol alphabet. The canonical-rendering round trip is not covered.",
+      E2_NOTE + " Additionally trusts lib/miniregex.py (capture semantics; validated natively on concrete lines each run).",
+      E2_TECH, "E2", "DESIGN.md §3 C08")
+
 NA_LIST = [
     ("C07", "Cram parser: every clause is about string contents inside one regex-calling function; out of reach of Kani (heap/regex) and of control-flow-only MIR execution."),
     ("C12", "Shell-state carry-over is implemented by a bash script; no encoding of bash semantics is available here."),
